@@ -658,3 +658,24 @@ def expand_locals(fn, n, depth=0):
             continue
         out[k] = expand_locals(fn, v, depth) if isinstance(v, (dict, list)) else v
     return out
+
+
+def iterator_from_begin(fn, n):
+    """if `n` is a local iterator initialised from <container>.begin()/cbegin()/constBegin() and only ever advanced with ++ (a front-to-back
+    walk), the container expression it walks; else None"""
+    n = skip_copies(n) if isinstance(n, dict) else None
+    if not (isinstance(n, dict) and n.get("k") == "ref" and n.get("dk") == "local"):
+        return None
+    _, var = local_var(fn, n["decl"])
+    init = skip_copies(var.get("init")) if var is not None and isinstance(var.get("init"), dict) else None
+    if not (isinstance(init, dict) and init.get("k") == "call" and init.get("ck") == "member" and strip_tmpl(init.get("callee") or "").split("::")[-1] in ("begin", "cbegin", "constBegin")):
+        return None
+    for r in refs_to(fn, n["decl"]):
+        if assignment_target(fn, r)[0] is not None:
+            return None
+        par = fn.nodes.get(fn.parent.get(r["id"]))
+        if isinstance(par, dict) and par.get("k") == "unop" and par.get("op") in ("--",):
+            return None
+        if isinstance(par, dict) and par.get("k") == "call" and par.get("ck") == "operator" and par.get("op") in ("--", "-=", "+=", "-", "+"):
+            return None
+    return init.get("obj")
